@@ -426,7 +426,14 @@ def verify(name, info, timeout, mem_gb, workdir, want_trace=False):
                 r["counterexample"] = {"for": p["description"], "values": trace_values(p["trace"])}
                 r["playback_vals"] = any_values(p["trace"])
                 break
-    if unwind_fail:
+    restr = [p for p in failed if (p["description"] or "").strip() == "assertion" and not p.get("file") and r["_info"].get("fp_restrict")]
+    if restr:
+        # the `ASSERT false` goto-instrument puts behind a restricted indirect call: a pointer value outside the listed targets
+        # reached the call site.  That is a defect of the restriction list (ours), not of the code under test.
+        r["verdict"] = "INCONCLUSIVE"
+        r["reason"] = ("function-pointer restriction too narrow: an indirect call reached a target outside the listed ones (" +
+                       "; ".join(sorted({(p.get("function") or p["name"] or "?") for p in restr})[:3]) + ")")
+    elif unwind_fail:
         r["verdict"] = "INCONCLUSIVE"
         r["reason"] = "unwinding assertion failed: the stated unwind bound does not cover a loop (" + \
                       "; ".join(sorted({(p['function'] or '?') for p in unwind_fail})[:3]) + ")"
